@@ -234,16 +234,15 @@ class AsyncIOClient(ABC):
 
     async def _seed_network_map(self):
         # To seed the network map we will send request for 3 PGNS: 60928, 126996, 126998 
-        await asyncio.sleep(2)
         json_str = '{"PGN":59904,"id":"isoRequest","description":"ISO Request","fields":[{"id":"pgn","name":"PGN","description":null,"unit_of_measurement":null,"value":60928,"raw_value":60928,"physical_quantities":null,"type":[13],"part_of_primary_key":false}],"source":0,"destination":255,"priority":6,"timestamp":"2012-06-17T15:02:11","source_iso_name":null,"hash":null}'
         msg = NMEA2000Message.from_json(json_str)
-        await self.send(msg)
-        await asyncio.sleep(2)
-        msg.fields[0].value = 126996
-        await self.send(msg)
-        await asyncio.sleep(2)
-        msg.fields[0].value = 126998
-        await self.send(msg)
+        for pgn in (60928, 126996, 126998):
+            await asyncio.sleep(2)
+            msg.fields[0].value = pgn
+            await self.send(msg)
+            if self._state == State.CLOSED:
+                # close() was called from a callback that this very task ran (it is then not cancelled): stop here
+                return
 
     async def _receive_loop(self):
         """Background task that continuously receives messages from the gateway.
